@@ -86,9 +86,16 @@ pub fn c07(_args: &Args, reg: &[TypeEntry], log: &mut Log) {
                 _ => {}
             }
         }
+        // what an export of this instantiation would write (the file of a generic type is written by whichever instantiation
+        // happens to be exported first)
+        let exported = match guarded(e.export_to_string) {
+            Ok(Ok(s)) => json!({"Ok": s}),
+            Ok(Err(err)) => json!({"Err": err}),
+            Err(p) => json!({"Panic": p}),
+        };
         log.emit(json!({"ev": "generic", "monitor": "C07", "id": e.id, "rust": e.rust,
             "decl": decl, "name": name, "decl_concrete": decl_concrete, "inline": inline, "ident": ident,
             "arg_names": arg_names, "params": params, "free": free, "unresolved": unresolved,
-            "parsed": parsed.is_some(), "name_form": name_form, "equiv": equiv, "problems": problems}));
+            "parsed": parsed.is_some(), "exported": exported, "name_form": name_form, "equiv": equiv, "problems": problems}));
     }
 }
